@@ -29,7 +29,8 @@ RULE = (
     "units; every valid content range <= 6; If-Range etags, dates and the empty value; every single, ordered pair and "
     "ordered triple of typed cache-control directives (5 int values incl. negative, 7 str values) for both classes; "
     "every CSP directive property x 8 values, pairs over all directives and triples; a date grid (6 years x 12 "
-    "months x 5 days x 3 times x 9 zones, every 15-minute offset, every day of 5 years, date objects); ages; Basic "
+    "months x 5 days x 3 times x 9 zones, every 15-minute offset, every day of 5 years, date objects, and tzinfo objects that are not datetime.timezone: hand-written "
+    "zero-offset / seasonal zones and zoneinfo zones x 4 years x 12 months x 4 days x 4 times); ages; Basic "
     "credentials <= 2 atoms each side; token and parameter schemes with <= 3 parameters (values <= 2 atoms); "
     "normal-form law on raw text: generic headers <= 4 atoms incl. RFC 2231 charset / continuation forms, and per-"
     "grammar raw headers (Range, Content-Range, dates in 3 formats with zones, Age, If-Range, Authorization / "
@@ -209,10 +210,79 @@ def _mk_ifrange(v):
     return IfRange(etag=x) if kind == "etag" else IfRange(date=_dt(x))
 
 
+class _Utc0(dtm.tzinfo):
+    """hand-written UTC: offset zero, but not the datetime.timezone.utc object"""
+
+    def utcoffset(self, dt):
+        return dtm.timedelta(0)
+
+    def dst(self, dt):
+        return dtm.timedelta(0)
+
+    def tzname(self, dt):
+        return "UTC"
+
+
+class _LondonLike(dtm.tzinfo):
+    """hand-written zone: offset zero in winter, +1 h from April to September (local reckoning)"""
+
+    def utcoffset(self, dt):
+        return dtm.timedelta(hours=1) if dt is not None and 4 <= dt.month <= 9 else dtm.timedelta(0)
+
+    def dst(self, dt):
+        return self.utcoffset(dt)
+
+    def tzname(self, dt):
+        return "BST" if self.utcoffset(dt) else "GMT"
+
+
+class _NamelessZero(dtm.tzinfo):
+    """offset zero, no name, dst unknown"""
+
+    def utcoffset(self, dt):
+        return dtm.timedelta(0)
+
+    def dst(self, dt):
+        return None
+
+    def tzname(self, dt):
+        return None
+
+
+def _zoneinfo(name):
+    try:
+        import zoneinfo
+        return zoneinfo.ZoneInfo(name)
+    except Exception:  # noqa: BLE001 - tz database not available
+        return None
+
+
+# tzinfo objects that are not datetime.timezone instances: zero offset without being timezone.utc, seasonal offsets
+TZ_TAGS = ["utc0", "london", "nameless0", "tz0", "zi:UTC", "zi:Europe/London", "zi:Africa/Abidjan", "zi:Etc/GMT",
+           "zi:America/New_York", "zi:Asia/Kolkata"]
+
+
+def _tz(tag):
+    if tag == "utc0":
+        return _Utc0()
+    if tag == "london":
+        return _LondonLike()
+    if tag == "nameless0":
+        return _NamelessZero()
+    if tag == "tz0":
+        return dtm.timezone(dtm.timedelta(0), "Z")      # a timezone equal to, but not identical with, timezone.utc
+    return _zoneinfo(tag[3:])
+
+
 def _dt(t):
-    """(y, mo, d, h, mi, s, offset_seconds|None) -> datetime"""
+    """(y, mo, d, h, mi, s, offset_seconds | None | tz tag) -> datetime"""
     y, mo, d, h, mi, s, off = t
-    tz = None if off is None else dtm.timezone(dtm.timedelta(seconds=off))
+    if isinstance(off, str):
+        tz = _tz(off)
+        if tz is None:
+            raise core.Broken(f"zone {off} not available")
+    else:
+        tz = None if off is None else dtm.timezone(dtm.timedelta(seconds=off))
     return dtm.datetime(y, mo, d, h, mi, s, tzinfo=tz)
 
 
@@ -580,6 +650,8 @@ def units(tier):
         for mo in range(1, 13):
             us.append(("dates-days", y, mo, True))
     us.append(("dates-offsets",))
+    for y in (2024, 1970, 9999, 1000):
+        us.append(("dates-tzinfo", y))
     us.append(("ages",))
     for i in range(len(BASIC_A) + 1):
         us.append(("basic", i))
@@ -959,6 +1031,25 @@ def _run_unit(unit, R, tier):
                 R.use("tz-naive" if t[6] is None else "tz-aware")
                 check(R, "date", t)
         return
+    if kind == "dates-tzinfo":
+        y = unit[1]
+        tags = [t_ for t_ in TZ_TAGS if not t_.startswith("zi:") or _zoneinfo(t_[3:]) is not None]
+        if any(t_.startswith("zi:") for t_ in tags):
+            U.used.add("zoneinfo")
+        for mo in range(1, 13):
+            for d in (1, 15, 28, 31):
+                for (h, mi, sec) in TIMES + ((1, 30, 0),):
+                    for tag in tags:
+                        t = (y, mo, d, h, mi, sec, tag)
+                        if not date_valid(t):
+                            continue
+                        x = _dt(t)
+                        if x.utcoffset() != x.replace(fold=1).utcoffset():
+                            continue        # local time in a DST gap / overlap: the instant is not defined
+                        U.used.add("tzinfo:" + tag.split(":")[0])
+                        check(R, "date", t)
+                        check(R, "if-range", ("date", t))
+        return
     if kind == "dates-offsets":
         for ts in (0, 1, 86400, 2 ** 31, 951782400, 253402300799):
             check(R, "timestamp", ts)
@@ -1210,7 +1301,8 @@ def finalize(R, tier):
                                               "raw-dict-rfc2231", "raw-options-rfc2231", "rawg-hit:range",
                                               "rawg-hit:content-range", "rawg-hit:date", "rawg-hit:age",
                                               "rawg-hit:if-range-date", "rawg-hit:if-range-etag", "rawg-hit:auth",
-                                              "rawg-hit:cache-control", "rawg-hit:csp", "etags2", "range-open-forms"}
+                                              "rawg-hit:cache-control", "rawg-hit:csp", "etags2", "range-open-forms", "tzinfo:utc0", "tzinfo:london",
+                                              "tzinfo:nameless0", "tzinfo:tz0"}
     need |= {"strcrit", "auth-deep", "triples2"}
     if tier == "thorough":
         need |= {"pairs33"}
